@@ -27,7 +27,7 @@ type Cfg struct {
 	Scale   string `json:"scale,omitempty"` // linear | log2 | log10
 	Color   bool   `json:"color"`
 	Unicode bool   `json:"unicode"`
-	Format  string `json:"format,omitempty"` // "" (default humanized) | "<{0}>"
+	Format  string `json:"format,omitempty"` // "" (default humanized) | "<{0}|{1}|{2}>"
 	Rows    int    `json:"rows"`
 	Cols    int    `json:"cols"`
 
@@ -58,6 +58,7 @@ type report struct {
 	outcome    []string
 	hung       bool
 	notDrawn   int // rows the command asked for that the final render did not draw
+	staleMax   int // renders whose formatter max was the running maximum of earlier renders
 	otherRow   int // lines that show another key (with its correct number) than the one asked for
 }
 
@@ -118,11 +119,51 @@ func sorterOf(name string) sorting.NameValueSorter {
 // numbers equal the aggregated numbers under the chosen formatter". For the
 // expression formatter the reference is independent; the default formatter is
 // humanize.Hi itself (its own correctness is C11's business).
-func want(c Cfg, v int64) string {
+func want(c Cfg, v, min, max int64) string {
 	if c.Format == "" {
 		return humanize.Hi(v)
 	}
-	return refFormat(v)
+	return refFormat(v, min, max)
+}
+
+// matchNum: does the token show value v under the chosen formatter? For the
+// expression formatter it also returns the (min, max) the formatter was given
+// (mm = true); which pair a renderer must pass is judged by the caller.
+func matchNum(c Cfg, tok string, v int64) (ok bool, mn, mx int64, mm bool) {
+	if c.Format == "" {
+		return tok == humanize.Hi(v), 0, 0, false
+	}
+	pv, mn, mx, ok := parseRefFormat(tok)
+	return ok && pv == v, mn, mx, true
+}
+
+// mmTracker collects the (min, max) pairs the formatter received on the judged
+// lines of one render. "displayed numbers equal the aggregated numbers under
+// the chosen formatter": a formatter is a function of (value, min, max), so
+// every line must have been formatted with the same range, and that range must
+// cover the values displayed (the renderers pass 0 and their running maximum).
+type mmTracker struct {
+	have     bool
+	mn, mx   int64
+	where    string
+	maxShown int64
+}
+
+func (t *mmTracker) add(rep *report, fam string, mm bool, mn, mx, val int64, where string) {
+	if !mm {
+		return
+	}
+	if !t.have {
+		t.have, t.mn, t.mx, t.where, t.maxShown = true, mn, mx, where, val
+	} else if mn != t.mn || mx != t.mx {
+		rep.fail("C14/"+fam+"/formatter-range-differs-between-lines", "%s was formatted with (min %d, max %d), %s with (min %d, max %d): lines drawn before the maximum changed were not re-drawn", t.where, t.mn, t.mx, where, mn, mx)
+	}
+	if val > t.maxShown {
+		t.maxShown = val
+	}
+	if val > mx {
+		rep.fail("C14/"+fam+"/formatter-max-below-displayed-value", "%s shows value %d formatted with max %d", where, val, mx)
+	}
 }
 
 // valueClass names the class of numbers in play (part of signatures, so that
@@ -275,6 +316,7 @@ func runHisto(c Case, rep *report) {
 
 	// ---- oracle on the lines of the final render
 	var pts []monoPoint
+	var mmt mmTracker
 	notDrawn, judged := 0, 0
 	for i, it := range shown {
 		if !vt.fresh(i) {
@@ -284,14 +326,15 @@ func runHisto(c Case, rep *report) {
 		line := vt.Get(i)
 		v := visible(line)
 		key := visible(it.Name)
-		if !histoLineShows(v, key, want(c.Cfg, it.Item.Count())) {
+		shows, num, mn, mx, mm := histoLineShows(c.Cfg, v, key, it.Item.Count())
+		if !shows {
 			// Either the number of this row is wrong, or the final render drew
 			// the line for another (earlier) item. The statement does not say
 			// which rows must be shown, but the number on the line must be the
 			// aggregated number of the key the line names.
 			other := false
 			for _, o := range counter.Items() {
-				if o.Name != it.Name && histoLineShows(v, visible(o.Name), want(c.Cfg, o.Item.Count())) {
+				if ok, _, _, _, _ := histoLineShows(c.Cfg, v, visible(o.Name), o.Item.Count()); o.Name != it.Name && ok {
 					other = true
 					break
 				}
@@ -300,15 +343,15 @@ func runHisto(c Case, rep *report) {
 			case other:
 				rep.otherRow++
 			case key != "" && strings.HasPrefix(v, key+" "):
-				rep.fail("C14/histo/number-differs-from-formatter", "line %d %q: want number %q after the key (value %d)", i, v, want(c.Cfg, it.Item.Count()), it.Item.Count())
+				rep.fail("C14/histo/number-differs-from-formatter", "line %d %q: want formatter(%d) after the key", i, v, it.Item.Count())
 			default:
 				rep.fail("C14/histo/stale-row-shows-outdated-number", "line %d %q was drawn by the final render; it should show key %q (value %d), and the number it shows is not the aggregated number of any other key", i, v, key, it.Item.Count())
 			}
 			continue
 		}
 		judged++
+		mmt.add(rep, "histo", mm, mn, mx, it.Item.Count(), fmt.Sprintf("line %d", i))
 		rest := strings.TrimLeft(v[len(key):], " ")
-		num := want(c.Cfg, it.Item.Count())
 		_, bar := trailingBar(rest[len(num):], c.Cfg.Unicode)
 		cells, measure, ok := barMeasure(bar, c.Cfg.Unicode)
 		if !ok {
@@ -326,6 +369,9 @@ func runHisto(c Case, rep *report) {
 		rep.outcome = append(rep.outcome, num, fmt.Sprint(measure))
 	}
 	checkMonotone(rep, "C14/histo/bar-not-monotone", pts)
+	if mmt.have && mmt.maxShown > 0 && mmt.mx != mmt.maxShown {
+		rep.staleMax++ // the running maximum of earlier renders, not the maximum of the final state
+	}
 	rep.notDrawn = notDrawn
 	rep.nontrivial = judged >= 1
 	if len(rep.findings) > 0 {
@@ -333,16 +379,23 @@ func runHisto(c Case, rep *report) {
 	}
 }
 
-// histoLineShows: the visible line is "key, spaces, number, (space ... | end)".
-func histoLineShows(v, key, num string) bool {
+// histoLineShows: the visible line is "key, spaces, number, (space ... | end)"
+// and the number is formatter(val). Returns the number token and, for the
+// expression formatter, the (min, max) it was formatted with.
+func histoLineShows(c Cfg, v, key string, val int64) (ok bool, num string, mn, mx int64, mm bool) {
 	if !strings.HasPrefix(v, key) {
-		return false
+		return
 	}
 	rest := strings.TrimLeft(v[len(key):], " ")
 	if key != "" && len(rest) == len(v)-len(key) {
-		return false // no space between key and number: a longer key
+		return // no space between key and number: a longer key
 	}
-	return strings.HasPrefix(rest, num) && (len(rest) == len(num) || rest[len(num)] == ' ')
+	num = rest
+	if i := strings.IndexByte(rest, ' '); i >= 0 {
+		num = rest[:i]
+	}
+	ok, mn, mx, mm = matchNum(c, num, val)
+	return
 }
 
 // ------------------------------------------------------------------ bargraph
@@ -392,6 +445,7 @@ func runBars(c Case, rep *report) {
 		fam = "bars-stacked"
 	}
 	var pts []monoPoint
+	var mmt mmTracker
 	for idx, row := range rows {
 		key := visible(row.Name)
 		vals := rowVals[idx]
@@ -402,15 +456,18 @@ func runBars(c Case, rep *report) {
 			for _, x := range vals {
 				total += x
 			}
-			num := "  " + want(c.Cfg, total)
+			tok := v[strings.LastIndexByte(v, ' ')+1:]
+			numOK, mn, mx, mm := matchNum(c.Cfg, tok, total)
+			num := "  " + tok
 			if !strings.HasPrefix(v, key) {
 				rep.fail("C14/"+fam+"/row-does-not-show-its-key", "line %d %q does not start with key %q", prefix+idx, v, key)
 				continue
 			}
-			if !strings.HasSuffix(v, num) || len(v) < len(key)+len(num) {
-				rep.fail("C14/"+fam+"/number-differs-from-formatter", "line %d %q: want it to end with %q (total %d)", prefix+idx, v, num, total)
+			if !numOK || !strings.HasSuffix(v, num) || len(v) < len(key)+len(num) {
+				rep.fail("C14/"+fam+"/number-differs-from-formatter", "line %d %q: want it to end with two spaces and formatter(%d)", prefix+idx, v, total)
 				continue
 			}
+			mmt.add(rep, fam, mm, mn, mx, total, fmt.Sprintf("row %q", key))
 			bar := strings.Trim(v[len(key):len(v)-len(num)], " ")
 			segs, ok := stackedSegments(raw, bar, c.Cfg, len(vals))
 			if !ok {
@@ -432,15 +489,18 @@ func runBars(c Case, rep *report) {
 		for i, val := range vals {
 			ln := prefix + idx*k + i
 			v := visible(vt.Get(ln))
-			num := " " + want(c.Cfg, val)
+			tok := v[strings.LastIndexByte(v, ' ')+1:]
+			numOK, mn, mx, mm := matchNum(c.Cfg, tok, val)
+			num := " " + tok
 			if i == 0 && !strings.HasPrefix(v, key) {
 				rep.fail("C14/"+fam+"/row-does-not-show-its-key", "line %d %q does not start with key %q", ln, v, key)
 				continue
 			}
-			if !strings.HasSuffix(v, num) {
-				rep.fail("C14/"+fam+"/number-differs-from-formatter", "line %d %q: want it to end with %q (value %d)", ln, v, num, val)
+			if !numOK || !strings.HasSuffix(v, num) {
+				rep.fail("C14/"+fam+"/number-differs-from-formatter", "line %d %q: want it to end with a space and formatter(%d)", ln, v, val)
 				continue
 			}
+			mmt.add(rep, fam, mm, mn, mx, val, fmt.Sprintf("row %q sub %d", key, i))
 			body := v[:len(v)-len(num)]
 			if i == 0 {
 				if len(body) < len(key) {
@@ -575,6 +635,8 @@ func runTable(c Case, rep *report) {
 	if len(rows) > c.Cfg.Rows {
 		rows = rows[:c.Cfg.Rows]
 	}
+	// tabulate with --format passes the table's ComputeMinMax of the state it renders
+	tmin, tmax := counter.ComputeMinMax()
 	var cells [][]wcell
 	var keys []string
 	hdr := []string{""}
@@ -592,10 +654,10 @@ func runTable(c Case, rep *report) {
 		keys = append(keys, r.Name())
 		row := []string{visible(r.Name())}
 		for _, cn := range cols {
-			row = append(row, want(c.Cfg, r.Value(cn)))
+			row = append(row, want(c.Cfg, r.Value(cn), tmin, tmax))
 		}
 		if c.Cfg.Extra {
-			row = append(row, want(c.Cfg, r.Sum()))
+			row = append(row, want(c.Cfg, r.Sum(), tmin, tmax))
 		} else {
 			row = append(row, "")
 		}
@@ -604,9 +666,9 @@ func runTable(c Case, rep *report) {
 	if c.Cfg.Extra {
 		row := []string{"Total"}
 		for _, cn := range cols {
-			row = append(row, want(c.Cfg, counter.ColTotal(cn)))
+			row = append(row, want(c.Cfg, counter.ColTotal(cn), tmin, tmax))
 		}
-		row = append(row, want(c.Cfg, counter.Sum()))
+		row = append(row, want(c.Cfg, counter.Sum(), tmin, tmax))
 		cells = append(cells, cellsOf(row...))
 	}
 	lines := make([]string, len(cells))
@@ -859,13 +921,15 @@ func runSpark(c Case, rep *report) {
 		rep.nontrivial = false
 		return
 	}
+	// spark passes the table's ComputeMinMax of the (trimmed) state it renders
+	smin, smax := counter.ComputeMinMax()
 	var cells [][]wcell
 	var keys []string
 	cells = append(cells, []wcell{{text: ""}, {text: "First"}, {text: wild}, {text: "Last"}})
 	for i := 0; i < rowCount; i++ {
 		r := rows[i]
 		keys = append(keys, r.Name())
-		cells = append(cells, []wcell{{text: visible(r.Name())}, {text: want(c.Cfg, r.Value(cols[0]))}, {text: wild, minLen: len(cols)}, {text: want(c.Cfg, r.Value(cols[len(cols)-1]))}})
+		cells = append(cells, []wcell{{text: visible(r.Name())}, {text: want(c.Cfg, r.Value(cols[0]), smin, smax)}, {text: wild, minLen: len(cols)}, {text: want(c.Cfg, r.Value(cols[len(cols)-1]), smin, smax)}})
 	}
 	lines := make([]string, len(cells))
 	for i := range cells {
